@@ -11,7 +11,8 @@ def run(ctx):
                          "configurations: both directions, minimum alignments 1/8/16) next to std::vec::Vec / VecDeque; boundary and out-of-range "
                          "arguments; capacity promises; distinct_nontrivial counts distinct op lines replayed on the model")
     proved = prove(ctx, MODULES)
-    run_coll(ctx, 220 if q else 8000, 14, "std", oracle_props=["C08"])
+    run_coll(ctx, 2000 if q else 60000, 14, "std", oracle_props=["C08"])
+    run_coll(ctx, 150 if q else 4000, 12, "general", oracle_props=["C08"], label="general(with faults)")
     if (not proved or ctx.disagreements) and not ctx.oracle_failures and q:
         ctx.notes.append("proof/correspondence broken: running the thorough-tier search for a failing input")
         run_coll(ctx, 4000, 16, "std", oracle_props=["C08"], seed_offset=1000, label="deep-search")
